@@ -307,7 +307,7 @@ def reference(function):
         L = function.L
         for i in range(n):
             for j in range(len(T)):
-                add("eq", lin((1.0, inner(S[i][0], T[j][1])), (-1.0, inner(S[i][1], T[j][0]))), ("adjoint", i, j))
+                add("eq", lin((1.0, inner(S[i][0], T[j][1])), (-1.0, inner(S[i][1], T[j][0]))), ("adjoint_linearity", i, j))
         lmis.append(("operator", [[lin((L ** 2, inner(S[i][0], S[j][0])), (-1.0, inner(S[i][1], S[j][1]))) for j in range(n)]
                                   for i in range(n)]))
         m = len(T)
